@@ -340,6 +340,8 @@ impl XorInterleaveMath {
 
 impl Aml for XorInterleaveMath {
     fn to_aml_bytes(&self, sink: &mut dyn AmlSink) {
+        // the number of bitmap entries is a single byte
+        assert!(self.bitmaps.len() <= 255);
         sink.byte(CedtStructureType::Cxims as u8);
         sink.byte(0); // reserved
         sink.word(self.len() as u16);
